@@ -119,6 +119,44 @@ def deductive(rep: Report, tier):
         cl = ["returns_pair", "quat_dtype", "shape_Q", "shape_R"] + (["R_upper_triangular", "R_real_diagonal"] if case != "wide" else [])
         run_case(rep, P, QS + "qr_qua", case, setup, post, lib=lib, contracts=dict(contracts, **{QS + "qr_qua": k_qr_square}) if case == "wide" else contracts,
                  clauses=cl, replay=replay_qr, timeout_s=30)
+    # ---- the wide branch at matrix level (free algebra): with the square factorisation of the leading block by its own contract (Q unitary - the
+    #      tall / square clause of this property, whose rank-deficient failure is the recorded finding) the branch returns R = Q^H X, hence Q R = X
+    from ..kernels import ALGEBRA
+    from ..nc import NC, Atom
+    from ..values import HMat, fresh_hmat
+    from .. import nc as ncm
+
+    def k_square_unitary(I, args, kwargs):
+        (Xs,) = args
+        m_ = Xs.shape[0]
+        cur().ghost["rec_arg_shape"] = tuple(Xs.shape)
+        return HMat(NC.atom(Atom("Qsq", m_, m_, "orth", alg="H"))), fresh_hmat("Rsq", m_, m_)
+
+    def setup_w(I, ctx):
+        m, n = dims(ctx, "m", "n")
+        ctx.assume(m < n, base=True)
+        X = fresh_hmat("X", m, n)
+        return [X], {}, (X, m, n)
+
+    def post_w(I, ctx, outcome, val, aux):
+        X, m, n = aux
+        if outcome != "return" or not (isinstance(val, tuple) and len(val) == 2 and all(isinstance(v, HMat) for v in val)):
+            return [("returns_pair", False)]
+        Q, R = val
+        shp = ctx.ghost.get("rec_arg_shape")
+        out = [("returns_pair", True),
+               ("factorises_the_leading_square_block", shp is not None and sand(SBool.mk(SInt.lift(shp[0]) == SInt.lift(m)), SBool.mk(SInt.lift(shp[1]) == SInt.lift(m))))]
+        st, be, secs, wit = ncm.nc_equal_obligation(Q.p @ R.p, X.p, ctx.hyps())
+        out.append(("Q_times_R_is_X", st, be, secs, wit or None))
+        st, be, secs, wit = ncm.nc_equal_obligation(Q.p.star @ Q.p, NC.eye(m), ctx.hyps())
+        out.append(("Q_has_orthonormal_columns", st, be, secs, wit or None))
+        return out
+    libw = Library("nc")
+    libw.qmode = "H"
+    cw = dict(ALGEBRA)
+    cw[QS + "qr_qua"] = k_square_unitary
+    run_case(rep, P, QS + "qr_qua", "wide.matrix_level", setup_w, post_w, lib=libw, contracts=cw,
+             clauses=["returns_pair", "factorises_the_leading_square_block", "Q_times_R_is_X", "Q_has_orthonormal_columns"], replay=replay_qr, timeout_s=20)
     # canary: a lower-triangular R_real would not give an upper-triangular R_quat
     i, j = z3.Ints("i j")
     rep.canary("C06.canary.block_indices", smt.prove([i > j, i >= 0, j >= 0], 4 * i + 0 <= 4 * j + 3, 5).status == smt.REFUTED)
